@@ -82,6 +82,9 @@ class EventDriver:
             if abs(p.interaction.inelasticity * 10 - last['y']) > 1e-9:
                 raise Divergence('inelasticity', last['y'] / 10.0, p.interaction.inelasticity)
             return
+        elif op == 'Sigma':
+            self.sigma(last)
+            return
         else:
             raise Divergence('op', 'known op', op)
         self.compare(st)
@@ -119,3 +122,37 @@ class EventDriver:
             gl = sorted(self.parts.index(x) + 1 for x in ev.get_from_level(l))
             if gl != want:
                 raise Divergence('get_from_level(%d)' % l, want, gl)
+
+    def sigma(self, last):
+        import scipy.constants
+        base = GQRSInteraction if last['model'] == 'GQRS' else CTWInteraction
+        pid = {'e': 'nu_e', 'mu': 'nu_mu', 'tau': 'nu_tau'}[last['flav']] + ('_bar' if last['anti'] else '')
+        prev = None
+        for dec in range(last['decades'][0], last['decades'][1] + 1):
+            for mant in (1.0, 3.0):
+                e = mant * 10.0 ** dec
+                if e > 10.0 ** last['decades'][1]:
+                    continue
+                cc = Particle(pid, (0, 0, -100), (0, 0, 1), e, interaction_model=base, interaction_type='cc').interaction
+                nc = Particle(pid, (0, 0, -100), (0, 0, 1), e, interaction_model=base, interaction_type='nc').interaction
+                vals = {'cc': cc.cross_section, 'nc': nc.cross_section, 'total': cc.total_cross_section}
+                where = '%s %s at %g GeV' % (last['model'], pid, e)
+                for k, v in vals.items():
+                    if not (v > 0 and np.isfinite(v)):
+                        raise Divergence(where + ': %s cross section positive' % k, '> 0', v)
+                if abs(nc.total_cross_section - vals['total']) > 1e-12 * vals['total']:
+                    raise Divergence(where + ': total cross section independent of the interaction kind', vals['total'], nc.total_cross_section)
+                if last['additive'] and abs(vals['cc'] + vals['nc'] - vals['total']) > 1e-9 * vals['total']:
+                    raise Divergence(where + ': cc + nc = total', vals['total'], vals['cc'] + vals['nc'])
+                for inter, key in ((cc, 'cc'), (nc, 'nc')):
+                    want = 1 / (scipy.constants.N_A * vals[key])
+                    if abs(inter.interaction_length - want) > 1e-9 * want:
+                        raise Divergence(where + ': %s interaction length = 1/(N_A sigma)' % key, want, inter.interaction_length)
+                want = 1 / (scipy.constants.N_A * vals['total'])
+                if abs(cc.total_interaction_length - want) > 1e-9 * want:
+                    raise Divergence(where + ': total interaction length = 1/(N_A sigma)', want, cc.total_interaction_length)
+                if prev is not None:
+                    for k in vals:
+                        if not vals[k] > prev[k]:
+                            raise Divergence(where + ': %s cross section increases with energy' % k, '> %g' % prev[k], vals[k])
+                prev = vals
